@@ -10,7 +10,11 @@ direct oracle : an INDEPENDENT structured (big-step) reference interpreter (harn
 known finding : F7 - `continue` inside `while` skips the loop test (pinned by the repository's own test): a dedicated probe family
                 reproduces it; a failing case is classified as F7 only if the implementation behaves exactly like the reference
                 variant with that one defect.
-correspondence: the Coq parser + interpreter model against the implementation on the same texts.
+correspondence: the Coq parser + interpreter model against the implementation on the same texts.  For generated trees of the proved
+                fragment (tag core), generated single `for` loops over a fragment body with break / continue (tag forcore,
+                Proofs/C01for.v) and generated NESTED for loops with statements around them (tag fornest, Proofs/C01forN.v) the check
+                decides inside Coq (a) parse_script(printed text) = compile / compile_for_real (tree) and
+                (b) the structured interpreter (sexec / fexec / gexec, proved sound for SExec / FExec / GExec) = the implementation's result, log, globals.
 """
 from . import core, interp, refinterp, scriptgen
 
@@ -188,6 +192,83 @@ def core_program(r, depth=0, in_loop=False, counter=[0]):
     return out
 
 
+def for_core_program(r):
+    """one `for` loop (Proofs/C01for.v): the body is a tree of the proved fragment, with `break` / `continue` of the for loop at its
+    top level and inside if branches (never inside a while: F7); the loop expression is an array-valued global or an arrayNew call;
+    the loop variables are not assigned by the body"""
+    g = scriptgen.Gen(r, [], 3)
+    names = scriptgen.VARS + scriptgen.GLOBALS + ['fv']
+    body = []
+    if r.random() < 0.5:
+        body.append(['if', [[g.expr(1, names), [[r.choice(['continue', 'continue', 'break'])]]]], None])
+    body.append(['expr', f"systemLog('F ' + fv + ' ' + {g.expr(1, names)})"])
+    body += core_program(r, 1, True)
+    if r.random() < 0.4:
+        body.append(['if', [[g.expr(1, names), [['expr', "systemLog('skip')"], ['continue']]], [g.expr(1, names), [['assign', 'va', 'fv']]]],
+                     [['continue']] if r.random() < 0.3 else None])
+        body.append(['expr', "systemLog('tail ' + fv)"])
+    index = 'fi' if r.random() < 0.5 else None
+    if index:
+        body.append(['expr', "systemLog('ix ' + fi)"])
+    values = r.choice(['arr', 'arr', f'arrayNew({", ".join(g.expr(0) for _ in range(r.randint(0, 4)))})'])
+    return [['for', 'fv', index, values, body]]
+
+
+def for_nest_program(r, depth=0, counter=[0]):
+    """statements with NESTED for loops (Proofs/C01forN.v ustmt): a sequence of fragment statements and for loops, each loop body
+    again such a sequence; break / continue of the innermost for at the top level of a body and inside if branches"""
+    g = scriptgen.Gen(r, [], 3)
+    counter[0] += 1
+    k = counter[0]
+    fv, fi = f'fv{k}', f'fi{k}'
+    names = scriptgen.VARS + scriptgen.GLOBALS + [fv]
+    body = []
+    if r.random() < 0.4:
+        body.append(['if', [[g.expr(1, names), [[r.choice(['continue', 'continue', 'break'])]]]], None])
+    body.append(['expr', f"systemLog('N{k} ' + {fv} + ' ' + {g.expr(1, names)})"])
+    if depth < 2 and r.random() < 0.7:
+        body += for_nest_program(r, depth + 1, counter)
+    if r.random() < 0.5:
+        body += core_program(r, 2, True)
+    if r.random() < 0.3:
+        body.append(['if', [[g.expr(1, names), [['continue']]]], None])
+        body.append(['expr', f"systemLog('T{k} ' + {fv})"])
+    index = fi if r.random() < 0.5 else None
+    if index:
+        body.append(['expr', f"systemLog('I{k} ' + {fi})"])
+    values = r.choice(['arr', 'arr2', f'arrayNew({", ".join(g.expr(0) for _ in range(r.randint(0, 3)))})'])
+    out = []
+    if r.random() < 0.4:
+        out.append(['assign', r.choice(scriptgen.VARS), g.expr(1)])
+    out.append(['for', fv, index, values, body])
+    if r.random() < 0.4:
+        out.append(['expr', f"systemLog('A{k} ' + {g.expr(1)})"])
+    if depth == 0 and r.random() < 0.3:
+        out.append(['return', g.expr(1)])
+    return out
+
+
+def ustmt_coq(stmts, canon):
+    """a statement list with for loops as a Coq term of type ustmt (Proofs/C01forReal.v): maximal runs of fragment statements become
+    one US leaf, for loops become UFor, sequences are right-nested"""
+    items, run = [], []
+    for s in stmts:
+        if s[0] == 'for':
+            if run:
+                items.append(f'(US {sstmt_coq(run, canon)})')
+                run = []
+            idx = core.copt(core.cstr(s[2]) if s[2] is not None else None)
+            items.append(f'(UFor {core.cstr(s[1])} {idx} {scriptgen.expr_coq(canon[s[3]])} {ustmt_coq(s[4], canon)})')
+        else:
+            run.append(s)
+    if run or not items:
+        items.append(f'(US {sstmt_coq(run, canon)})')
+    res = items[-1]
+    for it in reversed(items[:-1]):
+        res = f'(USeq {it} {res})'
+    return res
+
+
 def sstmt_coq(stmts, canon):
     """a statement list of the fragment as a Coq term of type sstmt (sequences right-nested)"""
     def one(s):
@@ -200,6 +281,8 @@ def sstmt_coq(stmts, canon):
             return f'(TReturn {core.copt(scriptgen.expr_coq(canon[s[1]]) if s[1] is not None else None)})'
         if k == 'break':
             return 'TBreak'
+        if k == 'continue':
+            return 'TContinue'
         if k == 'if':
             def chain(branches, els):
                 (c, b), rest = branches[0], branches[1:]
@@ -257,8 +340,8 @@ def run(tier):
     chk.assumptions = ['programs do not use the reserved __bareScript prefix, do not bind arrayLength/arrayGet and do not assign a for-index inside its loop',
                        'the final value of a for-index variable after the loop is not pinned by the language description (reference follows the lowering: it is the length)',
                        'call depth bounded (CPython recursion limit out of scope)']
-    proof_ok = chk.prove('Props/C01.v', extra_targets=['Model/Run.vo', 'Model/RunC01.vo'])
-    model_ok = proof_ok or chk.model_ready(['Model/Run.vo', 'Model/RunC01.vo'])
+    proof_ok = chk.prove('Props/C01.v', extra_targets=['Model/Run.vo', 'Model/RunC01.vo', 'Model/RunC01for.vo'])
+    model_ok = proof_ok or chk.model_ready(['Model/Run.vo', 'Model/RunC01.vo', 'Model/RunC01for.vo'])
     r = core.rng('c01')
     vals = value_pool(r)
 
@@ -314,6 +397,14 @@ def run(tier):
     for _ in range(80 if tier == 'quick' else 1500):
         progs.append(('core', core_program(r), {'g0': r.choice(vals), 'g1': r.choice(vals), 'g2': r.choice(vals)}))
 
+    arrs = [v for v in vals if v[0] == 'arr']
+    for _ in range(60 if tier == 'quick' else 1000):
+        progs.append(('forcore', for_core_program(r), {'g0': r.choice(vals), 'g1': r.choice(vals), 'g2': r.choice(vals), 'arr': r.choice(arrs)}))
+
+    for _ in range(60 if tier == 'quick' else 1000):
+        progs.append(('fornest', for_nest_program(r), {'g0': r.choice(vals), 'g1': r.choice(vals), 'g2': r.choice(vals),
+                                                       'arr': r.choice(arrs), 'arr2': r.choice(arrs)}))
+
     texts = [scriptgen.program_text(t) for _, t, _ in progs]
     cases = [{'text': tx, 'globals': g, 'max': 3000, 'want_model': True} for tx, (_, _, g) in zip(texts, progs)]
     impl = core.run_impl('run_script', cases)
@@ -362,7 +453,7 @@ def run(tier):
                                              'globals': {k: repr(v)[:60] for k, v in exp['globals'].items()}},
                                 'got': {k: res.get(k) for k in ('res', 'rt', 'log', 'globals')}})
 
-    corr_n = declined = n_low = n_st = st_declined = 0
+    corr_n = declined = n_low = n_st = st_declined = n_for = n_nest = 0
     if model_ok:
         idx = [i for i in range(len(progs)) if 'model' in impl[i] and 'host' not in impl[i] and not impl[i].get('rt', '').startswith('Exceeded maximum')]
         budget = 250 if tier == 'quick' else 4000
@@ -377,31 +468,45 @@ def run(tier):
                 pass
         # the proved fragment: (a) parse_script (printed text) = compile (tree) in the parser model; (b) the structured interpreter
         # of Proofs/C01b.v (sound for SExec) run on the tree agrees with the implementation's run of the text
-        core_idx = [i for i, (tag, _, _) in enumerate(progs) if tag == 'core' and 'host' not in impl[i]
+        core_idx = [i for i, (tag, _, _) in enumerate(progs) if tag in ('core', 'forcore', 'fornest') and 'host' not in impl[i]
                     and not impl[i].get('rt', '').startswith('Exceeded maximum')]
-        low_terms, st_terms, st_used = [], [], []
+        low_terms, low_used, st_terms, st_used = [], [], [], []
         for i in core_idx:
             ex = set()
             exprs_of(progs[i][1], ex)
             if any(canon.get(e) is None for e in ex):
                 continue
-            term = sstmt_coq(progs[i][1], canon)
-            low_terms.append(f'check_lowering {core.cstr(texts[i])} {term}')
+            if progs[i][0] == 'forcore':
+                # the `for` layer (Proofs/C01for.v): compile_for_real / fexec on (value name, index name, loop expression, body tree)
+                _, fx, fidx, fvalues, fbody = progs[i][1][0]
+                term = (f'{core.cstr(fx)} {core.copt(core.cstr(fidx) if fidx is not None else None)} '
+                        f'{scriptgen.expr_coq(canon[fvalues])} {sstmt_coq(fbody, canon)}')
+                low_fn, st_fn = 'check_lowering_for', 'check_struct_for'
+            elif progs[i][0] == 'fornest':
+                # nested for loops (Proofs/C01forN.v): source tree as ustmt, names of the temporaries by annotate
+                term = ustmt_coq(progs[i][1], canon)
+                low_fn, st_fn = 'check_lowering_u', 'check_struct_u'
+            else:
+                term = sstmt_coq(progs[i][1], canon)
+                low_fn, st_fn = 'check_lowering', 'check_struct'
+            low_terms.append(f'{low_fn} {core.cstr(texts[i])} {term}')
+            low_used.append(i)
             try:
                 enc = interp.WorldEnc()
                 world = enc.world(progs[i][2])
                 xg = core.clist([f'({core.cstr(k)}, {interp.tree_coq(v)})' for k, v in impl[i]['globals']])
-                st_terms.append(f'check_struct (Z.to_nat 6000%Z) {term} {world} {interp.expected_coq(impl[i])} '
+                st_terms.append(f'{st_fn} (Z.to_nat 6000%Z) {term} {world} {interp.expected_coq(impl[i])} '
                                 f'{core.clist([core.cstr(x) for x in impl[i]["log"]])} {xg}')
                 st_used.append(i)
             except (interp.Unencodable, ValueError):
                 pass
-        bad_low, err_low = core.coq_bools('c01low', interp.IMPORTS + ' Proofs.C01 Model.RunC01', low_terms, shard=5)
+        c01_imports = interp.IMPORTS + ' Proofs.C01 Model.RunC01 Model.RunC01for Proofs.C01forReal'
+        bad_low, err_low = core.coq_bools('c01low', c01_imports, low_terms, shard=5)
         for k, log in err_low:
             chk.corr_fail.append({'class': 'case-file-did-not-evaluate', 'shard': k, 'log': log[-800:]})
         for b in bad_low[:5]:
-            chk.corr_fail.append({'class': 'compile-differs-from-the-parser-model', 'source': texts[core_idx[b]]})
-        st_codes, err_st = core.coq_codes('c01st', interp.IMPORTS + ' Proofs.C01 Model.RunC01', st_terms, shard=6)
+            chk.corr_fail.append({'class': 'compile-differs-from-the-parser-model', 'source': texts[low_used[b]]})
+        st_codes, err_st = core.coq_codes('c01st', c01_imports, st_terms, shard=6)
         for k, log in err_st:
             chk.corr_fail.append({'class': 'case-file-did-not-evaluate', 'shard': k, 'log': log[-800:]})
         for j, c in enumerate(st_codes):
@@ -409,6 +514,8 @@ def run(tier):
                 chk.corr_fail.append({'class': 'structured-interpreter-differs-from-implementation' if c == 0 else 'structured-interpreter-out-of-fuel',
                                       'source': texts[st_used[j]], 'impl': {k: impl[st_used[j]].get(k) for k in ('res', 'rt', 'log')}})
         n_low, n_st, st_declined = len(low_terms), len(st_terms), sum(1 for c in st_codes if c == 2)
+        n_for = sum(1 for i in st_used if progs[i][0] == 'forcore')
+        n_nest = sum(1 for i in st_used if progs[i][0] == 'fornest')
         codes, errors = core.coq_codes('c01', interp.IMPORTS, terms, shard=16)
         corr_n = len(used)
         for k, log in errors:
@@ -425,11 +532,14 @@ def run(tier):
         'distinct_nontrivial': len(nontrivial),
         'rule': 'shapes: every nesting chain of {if, if-else, if-elif, if-elif-else, while, for, for-with-index} x child position to depth 3 with break/continue '
                 'flags per loop level (depth 3 sampled 1:4 in quick), at global scope or inside a function; random: grammar-generated programs to nesting 5 with '
-                'up to 3 functions, function definitions moved inside global blocks in 40%; nested-fn: function inside a global block with two nested loops and '
+                'up to 3 functions, function definitions moved inside global blocks in 40%; forcore: one for loop (with / without index variable, over an array '
+                'global or an arrayNew call) whose body is a fragment tree with break / continue of the for at top level and in if branches; fornest: sequences of fragment statements and for loops nested '
+                'to depth 3 (for-in-for), break / continue of the innermost for; nested-fn: function inside a global block with two nested loops and '
                 'break/continue; initial globals from a 16-value pool of all nine types; non-trivial = distinct program texts on which implementation = reference',
         'exhaustive': tier == 'thorough', 'exhaustive_part': 'nesting shapes to depth 3' + (' (depth 3 sampled in quick)' if tier == 'quick' else ''),
         'distribution': dist, 'reference_skipped': skipped, 'correspondence_cases': corr_n, 'model_declined': declined,
         'lowering_equalities_checked_in_coq': n_low, 'structured_interpreter_runs_in_coq': n_st, 'structured_interpreter_declined': st_declined,
+        'for_layer_structured_runs_in_coq': n_for, 'nested_for_structured_runs_in_coq': n_nest,
         'samples': [{'source': texts[i], 'impl': {k: impl[i].get(k) for k in ('res', 'rt', 'log')}} for i in (3, len(progs) // 2, len(progs) - 40) if i < len(progs)],
     }
     return chk.finish(TRUSTED)
